@@ -43,6 +43,19 @@ claim('C08',
       'TLA+ spec (ErrPipe.tla) + TLC exhaustive/simulation + WSGI-level replay of TLC-generated request histories',
       'DESIGN.md 3/C08')
 
+claim('C10',
+      'Embed.tla defines Flatten for chains of up to three applications (prefixes, merged middlewares, resources, slash mode with '
+      'inherit_slashes, renderer resolution with render factories / rebind_render / explicit callables, error handling) as a '
+      'transcription of SubApplication.bind_all + BoundRoute re-binding, and DEFINES nested behaviour as first-match dispatch over the '
+      'flattened table. TLC checks algebraic facts of Flatten (no loss/duplication, order, outer handler, outer middlewares first, '
+      'unique once, explicit render wins, slash inheritance). Bound to the code: TLC-generated trees are built as real NESTED '
+      'applications and - from TLC\'s flat record - as real FLAT applications; per flat route two slash probes and a failing request '
+      'are sent to both and compared with the spec (status, answering route, middleware trace, resource values, renderer, error handler) '
+      'and app.routes patterns are compared with the flattened table.',
+      'Trusted: TLC; tag extraction from bodies; a resource defined only by two inner levels is not compared; middleware types unique+reorderable here.',
+      'TLA+ spec (Embed.tla) + TLC exhaustive/simulation + differential replay (nested vs TLC-flattened vs spec)',
+      'DESIGN.md 3/C10')
+
 claim('C19',
       'TLC model-checks Reservoir.tla (algorithm shaped like Reservoir.add/resize refines the property relation; '
       'Bounded/OnlyAdded/NeverRaises/ExactCount in every reachable state, all replacement indices, all resize points) '
